@@ -7,7 +7,7 @@ from vlib.ref import b58, secp
 from vlib.util import call, expect_eq
 
 PROPERTY_ID = "C09"
-OPTIMIZED = ['bad-scalar', 'lengths', 'bad-sec']   # clauses run a second time under `python -O` (assert statements stripped)
+OPTIMIZED = ['bad-scalar', 'lengths', 'bad-sec', 'valid']   # clauses run a second time under `python -O` (assert statements stripped)
 RULE = ("scalars from the class mixture (plus scalars whose low byte is 0x01); every constructor; the four WIF "
         "flavours decoded with an independent Base58Check; SEC encodings against own secp256k1; rejection inputs "
         "constructed per class (bad scalars at every construction site, wrong lengths, off-curve encodings decided "
